@@ -345,9 +345,19 @@ func (e *engine) verify(fc *funcContract, props []string) *vc {
 			v.trusted["assumption: pointer receivers are non-nil"] = true
 		}
 	}
-	for _, fvar := range fn.FreeVars {
+	for fi, fvar := range fn.FreeVars {
 		t := v.havoc("fv."+fvar.Name(), fvar.Type(), st)
 		fr.vals[fvar] = t
+		if pt, isPtr := fvar.Type().Underlying().(*types.Pointer); isPtr && !isStruct(pt.Elem()) && immutableCapture(fn, fi) {
+			// a captured variable that is never reassigned: a constant, not a heap cell anything could change
+			k := "fvconst." + fvar.Name()
+			v.localSorts[k] = v.sc.sortOf(pt.Elem())
+			fr.addrs[fvar] = &addr{kind: aLocal, key: k, typ: pt.Elem()}
+			st.locals[k] = v.havoc("fv."+fvar.Name()+".val", pt.Elem(), st)
+			if _, ptr := pt.Elem().Underlying().(*types.Pointer); ptr && fvar.Name() == receiverName(fn) {
+				v.rawFact(fmt.Sprintf("(not (= %s 0))", st.locals[k]))
+			}
+		}
 		if _, isPtr := fvar.Type().Underlying().(*types.Pointer); isPtr {
 			// captured variables are cells allocated by the enclosing function: non-nil, and distinct
 			// variables live in distinct cells
@@ -410,6 +420,7 @@ func (e *engine) verify(fc *funcContract, props []string) *vc {
 		v.rawFact(t)
 	}
 	v.entry = st.clone()
+	v.assumeHolds(fr, st)
 	v.cover(st, "requires", "true")
 	v.runBody(fr, st)
 	v.checkDirectiveSites(fn, fc)
